@@ -48,7 +48,23 @@ def _var(dt, src="code"):
 
 def run_case(case) -> Outcome:
     op, dt = case["op"], case["dt"]
-    var = _var(dt, case.get("src", "code"))
+    if case.get("prev") is not None:
+        # the same variable object described another data type before and was used as such
+        # (data_type is a plain public attribute; tools that build dictionaries in code re-use objects)
+        from canopen.objectdictionary import ODVariable
+        var = ODVariable("v", 0x2000, 0)
+        if case["prev"]:
+            var.data_type = case["prev"]
+            try:
+                len(var)
+                var.decode_raw(var.encode_raw(1))
+            except Exception:
+                pass
+        else:
+            len(var)                    # looked at before the type was known
+        var.data_type = dt
+    else:
+        var = _var(dt, case.get("src", "code"))
     D = []
     name = rc.NAMES[dt]
 
@@ -278,6 +294,13 @@ def search(ctx):
                 yield {"op": "oor", "dt": dt, "v": v, "src": "eds"}
             yield {"op": "bytes", "dt": dt, "b": bytes(range(0x81, 0x81 + rc.width(dt) // 8)), "src": "eds"}
             yield {"op": "bytes", "dt": dt, "b": bytes(rc.width(dt) // 8 + 1), "src": "eds"}
+            # ... and through a variable object that was of another type before
+            others = sorted(rc.INTEGERS)
+            for k, v in enumerate(boundary_ints(dt)):
+                prev = others[(others.index(dt) + 1 + k) % len(others)]
+                yield {"op": "int", "dt": dt, "v": v, "prev": prev if prev != dt else 0}
+            yield {"op": "int", "dt": dt, "v": 1, "prev": 0}
+            yield {"op": "bytes", "dt": dt, "b": bytes(range(0x81, 0x81 + rc.width(dt) // 8)), "prev": rc.REAL64}
         for dt in sorted(rc.REALS):
             for bits in list(real_patterns(dt))[:12]:
                 yield {"op": "real", "dt": dt, "bits": bits, "src": "eds"}
